@@ -123,4 +123,36 @@ theorem subkeyRaw_meta {g : Gen} {fuel : Nat} {n child : Node} {i : Int} {harden
         subst this
         exact ⟨by omega, by omega, b1, b2, by simp [b3], b4, fun _ => rfl, by simp, b6⟩
 
+/-- the node is what its own constructor returns on its own fields: true of every node the code builds
+(`mkNode_valid`), since every node is built by `BIP32Node.__init__` -/
+def Node.Valid (g : Gen) (n : Node) : Prop :=
+  mkNode g n.kind n.chainCode n.depth n.parentFingerprint n.childIndex
+    (match n.secretExponent with
+     | some se => .priv se
+     | none => .pub (some n.publicPair)) = .ok n
+
+theorem mkNode_valid {g : Gen} {k : Kind} {cc : Bytes} {d : Nat} {fp : Bytes} {idx : Nat} {key : KeyArg} {nd : Node}
+    (h : mkNode g k cc d fp idx key = .ok nd) : nd.Valid g := by
+  obtain ⟨h1, h2, h3, h4, h5, -, -, hk⟩ := mkNode_ok h
+  unfold Node.Valid
+  cases key with
+  | priv se =>
+    obtain ⟨k1, -⟩ := keyInit_priv_ok hk
+    rw [h1, h2, h3, h4, h5, k1]; exact h
+  | pub pp =>
+    obtain ⟨k1, k2, -⟩ := keyInit_pub_ok hk
+    rw [h1, h2, h3, h4, h5, k1, ← k2]; exact h
+
+/-- a valid public node is its own public copy; a valid private node's public copy drops the exponent -/
+theorem publicCopy_of_valid {g : Gen} {n : Node} (hv : n.Valid g) :
+    n.publicCopy g = .ok { n with secretExponent := none } := by
+  unfold Node.Valid at hv
+  obtain ⟨-, -, -, -, -, l1, l2, hk⟩ := mkNode_ok hv
+  have hc : Curve.containsXY g.c n.publicPair.1 n.publicPair.2 = true := by
+    cases hse : n.secretExponent with
+    | none => rw [hse] at hk; exact (keyInit_pub_ok hk).2.2
+    | some se => rw [hse] at hk; exact (keyInit_priv_ok hk).2.2.2.2
+  unfold Node.publicCopy mkNode
+  simp [keyInit, hc, l1, l2]
+
 end Pycoin.BIP32
